@@ -251,3 +251,148 @@ U_CALC_ACTIVATION = Unit("Sample.calculate_activation", ACT + ".Sample.calculate
                          contracts={ACT + ".activity": c_activity},
                          inline={ACT + ".Sample._accumulate", "periodictable.core.isisotope", "periodictable.core.ision"},
                          replay={"module": "c14", "task": "replay"})
+
+
+# ==============================================================================  C15: find_root, decay_time
+
+F_UF = z3.Function("f_of", z3.RealSort(), z3.RealSort())
+DF_UF = z3.Function("df_of", z3.RealSort(), z3.RealSort())
+
+
+def _fr_inputs(st, interp):
+    from pyvc.values import VBuiltin
+    x0 = st.fresh("x0", z3.RealSort())
+    f = VBuiltin("f", lambda i, s, a, k: F_UF(R(i.resolve(s, a[0]))))
+    df = VBuiltin("df", lambda i, s, a, k: DF_UF(R(i.resolve(s, a[0]))))
+    return [x0, f, df], {"max": 3}, {"x0": x0}
+
+
+def _fr_post(st, interp, C, res):
+    if res.outcome == "raise":
+        st.oblige("raises only ZeroDivisionError, when the derivative vanishes at an iterate",
+                  z3.BoolVal(res.exc == "ZeroDivisionError"), kind="raises", info={"exc": res.exc})
+        return
+    v = res.value
+    ok = isinstance(v, VTuple) and len(v.items) == 2
+    st.oblige("post.returns (x, fx)", z3.BoolVal(ok))
+    if ok:
+        st.oblige("post.fx == f(x) for the returned x", R(v.items[1]) == F_UF(R(v.items[0])))
+
+
+U_FIND_ROOT = Unit("find_root[3 iterations]", ACT + ".find_root", _fr_inputs, _fr_post, options={"div_zero": "branch"},
+                   replay={"module": "c15", "task": "replay"})
+
+
+def c_find_root(interp, st, args, kw):
+    """find_root(x0, f, df) -> (x, f(x)) for some x, or ZeroDivisionError (unit find_root); the iterate is
+    arbitrary: convergence is not claimed"""
+    x = st.fresh("root_x", z3.RealSort())
+    st.ghost["root_x"] = x
+    if st.branch(st.fresh("derivative_vanishes", z3.BoolSort())):
+        from pyvc.values import PyRaise
+        raise PyRaise("ZeroDivisionError", "float division by zero")
+    fx = interp.call(st, args[1], [x], {})
+    return VTuple([x, fx])
+
+
+def _dt_inputs(nrest):
+    def mk(st, interp):
+        use_state(st)
+        rests = [st.fresh("rest%d" % i, z3.RealSort()) for i in range(nrest)]
+        for r in rests:
+            st.assume(r >= 0)
+        prods = []
+        ents = []
+        for j in range(2):
+            th = st.fresh("Thalf%d" % j, z3.RealSort())
+            st.assume(th > 0)
+            acts = [st.fresh("A%d_at_rest%d" % (j, i), z3.RealSort()) for i in range(nrest)]
+            for a in acts:
+                st.assume(a > 0)
+            p = VObj("ActRec", {"Thalf_hrs": th})
+            prods.append((th, acts))
+            ents.append([p, VList(list(acts))])
+        target = st.fresh("target", z3.RealSort())
+        st.assume(target > 0)
+        self = VObj((ACT, "Sample"), {"rest_times": VTuple(list(rests)), "activity": VDict(ents)})
+        return [self, target], {}, {"rests": rests, "prods": prods, "target": target, "self": self}
+    return mk
+
+
+def _dt_post(st, interp, C, res):
+    rests, prods, target = C["rests"], C["prods"], C["target"]
+    ln2 = R(interp.lookup_global(st, ACT, "LN2"))
+    # reference: the smallest rest time (first one among equals) and the activities recorded there
+    def total_at(t, k):
+        To = rests[k]
+        return z3.Sum([acts[k] * E(interp, st, -(ln2 / th) * (t - To)) for th, acts in prods])
+    if res.outcome == "raise":
+        st.oblige("post.only RuntimeError (accuracy not reached) or the root finder's ZeroDivisionError may escape",
+                  z3.BoolVal(res.exc in ("RuntimeError", "ZeroDivisionError")), kind="raises", info={"exc": res.exc, "line": res.lineno})
+        return
+    v = res.value
+    # which index is the reference on this path?  the one whose rest time is <= all others
+    cands = []
+    for k in range(len(rests)):
+        cands.append(z3.And([rests[k] <= r for r in rests]))
+    t = R(v)
+    st.oblige("post.t >= 0", t >= 0)
+    A0 = lambda k: total_at(z3.RealVal(0), k)
+    if is_concrete_num(v) and v == 0 and "root_x" not in st.ghost:
+        st.oblige("post.returns 0 without solving only when the activity at removal is already at or below the target",
+                  z3.Or([z3.And(c, A0(k) <= target) for k, c in enumerate(cands)]))
+        return
+    st.oblige("post.solves only when the activity at removal is above the target",
+              z3.Or([z3.And(c, A0(k) > target) for k, c in enumerate(cands)]))
+    st.oblige("post.returned time has total activity within 0.1% of the target",
+              z3.Or([z3.And(c, total_at(t, k) - target <= z3.RealVal("0.001") * target,
+                            target - total_at(t, k) <= z3.RealVal("0.001") * target) for k, c in enumerate(cands)]))
+
+
+U_DECAY_TIME = [Unit("Sample.decay_time[%d rest times]" % n, ACT + ".Sample.decay_time", _dt_inputs(n), _dt_post,
+                     contracts={ACT + ".find_root": c_find_root}, options={"div_zero": "branch"},
+                     replay={"module": "c15", "task": "replay"}) for n in (1, 2)]
+
+
+def _dt_empty_inputs(st, interp):
+    self = VObj((ACT, "Sample"), {"rest_times": VTuple([]), "activity": VDict([])})
+    return [self, st.fresh("target", z3.RealSort())], {}, {}
+
+
+def _dt_empty_post(st, interp, C, res):
+    st.oblige("post.nothing activated: decay time 0", z3.BoolVal(res.outcome == "return" and res.value == 0))
+
+
+U_DECAY_TIME_EMPTY = Unit("Sample.decay_time[nothing activated]", ACT + ".Sample.decay_time", _dt_empty_inputs, _dt_empty_post)
+
+
+def lemma_df_is_derivative():
+    """df(t) == d/dt f(t) for the closures of decay_time (back end: sympy).  The two lambda bodies are
+    read from the AST of the working tree and evaluated on symbolic data [(I1,L1),(I2,L2),(I3,L3)]."""
+    import ast
+    import sympy
+    from pyvc import extract
+    ext = extract.extract(ACT + ".Sample.decay_time")
+    lambdas = {}
+    for node in ast.walk(ext.node):
+        if isinstance(node, ast.Assign) and len(node.targets) == 1 and isinstance(node.targets[0], ast.Name) \
+                and isinstance(node.value, ast.Lambda) and node.targets[0].id in ("f", "df"):
+            lambdas[node.targets[0].id] = node.value
+    st = State()
+    if set(lambdas) != {"f", "df"}:
+        raise Unsupported("closures f/df not found in decay_time")
+    t, To, target = sympy.symbols("t To target", real=True)
+    data = [(sympy.Symbol("I%d" % i, positive=True), sympy.Symbol("L%d" % i, positive=True)) for i in range(3)]
+    ns = {"exp": sympy.exp, "data": data, "To": To, "target": target, "sum": sum, "log": sympy.log}
+    fexpr = eval(compile(ast.Expression(lambdas["f"]), "<f>", "eval"), dict(ns))(t)
+    dfexpr = eval(compile(ast.Expression(lambdas["df"]), "<df>", "eval"), dict(ns))(t)
+    diff = sympy.simplify(sympy.diff(fexpr, t) - dfexpr)
+    st.oblige("df is the derivative of f (sympy: d/dt f - df simplifies to 0)", z3.BoolVal(diff == 0), kind="lemma",
+              info={"f": str(fexpr), "df": str(dfexpr), "residual": str(diff)})
+    A = sum(I * sympy.exp(-L * (t - To)) for I, L in data)
+    st.oblige("f(t) == total activity at time t after removal minus the target (sympy)",
+              z3.BoolVal(sympy.simplify(fexpr - (A - target)) == 0), kind="lemma", info={"f": str(fexpr)})
+    return [st]
+
+
+L_DF = Lemma("decay_time.df-is-derivative-of-f", lemma_df_is_derivative)
